@@ -235,11 +235,13 @@ theorem sel_plane_keeps (m m' : Mesh) (ax : Nat) (x : Option Rat) (h : selPlane 
           rw [hnames, List.map_map]
           rfl
 
-/-- Range selection keeps exactly the subregions with positive overlap with the kept slab. -/
+/-- Range selection keeps exactly the subregions overlapping the kept slab by more than half a
+cell (subregions consist of whole cells, so: by at least one cell). -/
 theorem sel_range_keeps (m m' : Mesh) (ax : Nat) (a b : Rat) (h : selRange m ax a b = .ok m') :
     ∃ c0 i0 c1 i1, selConvert m ax (min a b) = .ok (c0, i0) ∧ selConvert m ax (max a b) = .ok (c1, i1) ∧
       m'.subs.map (·.1) = (m.subs.filter fun p =>
-        !(decide (c1 + m.cellAt ax / 2 ≤ p.2.lo ax) || decide (p.2.hi ax ≤ c0 - m.cellAt ax / 2))).map (·.1) := by
+        !(decide (c1 + m.cellAt ax / 2 - m.cellAt ax / 2 ≤ p.2.lo ax) ||
+          decide (p.2.hi ax - m.cellAt ax / 2 ≤ c0 - m.cellAt ax / 2))).map (·.1) := by
   unfold selRange at h
   split at h
   · cases h
